@@ -345,9 +345,32 @@ def gen_program(rng, mode="omp"):
             return {"k": "do", "var": var, "lo": lit(1), "hi": ref("n"),
                     "step": 1, "body": inner}
         loops = [lp("i", [lp("j", [lp("l", body)])])]
+    flow2 = mode == "omp" and not perfect3 and rng.random() < 0.06
+    if flow2:
+        # two worksharing loops in one region: a scalar only read in the
+        # first and written-then-read in the second needs its value from
+        # before the region (firstprivate, not private)
+        sc = pick(rng, REAL_SCALARS)
+        a1, a2, a3 = pick(rng, REAL_ARRAYS), pick(rng, REAL_ARRAYS), \
+            pick(rng, REAL_ARRAYS)
+
+        def lp(body):
+            return {"k": "do", "var": "i", "lo": lit(1), "hi": ref("n"),
+                    "step": 1, "body": body}
+        first = lp([{"k": "assign", "lhs": aref(a1, [ref("i")]),
+                     "rhs": binop("*", ref(sc), lit("2.0", "real"))}])
+        second = lp([{"k": "assign", "lhs": ref(sc),
+                      "rhs": aref(a2, [ref("i")])},
+                     {"k": "assign", "lhs": aref(a3, [ref("i")]),
+                      "rhs": binop("+", ref(sc), lit("1.0", "real"))}])
+        if a3 == a1:
+            second["body"][1]["lhs"] = aref(a1, [ref("i")])
+        loops = [first, second]
     prog = {"name": "sub", "n_max": 8, "body": prefix + loops}
     if perfect3:
         prog["perfect3"] = True
+    if flow2:
+        prog["flow2"] = True
     if dnames:
         prog["dnames"] = True
     return prog
